@@ -1776,6 +1776,8 @@ fn process_file_context<T: Read + Write>(
             }
         }
     }
+    #[cfg(adlt_verif)]
+    adlt::utils::verif_sched::point("remote_after_drain");
     // inform about new msgs
     if got_new_msgs && websocket.can_write() {
         // todo debounce this a bit? (eg with eac stats?)
